@@ -89,17 +89,19 @@ func (r *registry) runningKeys() []string {
 }
 
 type vClient struct {
-	reg  *registry
-	key  string
-	cfg0 VNode // as constructed
-	mu   sync.Mutex
-	cfg  VNode // cfg0 with everything it was told folded in
-	stop chan struct{}
-	errs []string
+	reg      *registry
+	key      string
+	cfg0     VNode // as constructed
+	mu       sync.Mutex
+	cfg      VNode // cfg0 with everything it was told folded in
+	stop     chan struct{}
+	errs     []string
+	quit     chan struct{}
+	quitOnce sync.Once
 }
 
 func (r *registry) construct(nc *nats.Conn, cfg VNode) client.Client {
-	c := &vClient{reg: r, key: cfg.Parent + "-" + cfg.ID, cfg0: cfg, cfg: cfg, stop: make(chan struct{})}
+	c := &vClient{reg: r, key: cfg.Parent + "-" + cfg.ID, cfg0: cfg, cfg: cfg, stop: make(chan struct{}), quit: make(chan struct{})}
 	r.mu.Lock()
 	r.clients[c.key] = c
 	r.events = append(r.events, vEvent{kind: "construct", key: c.key, cfg: cfg.canon()})
@@ -115,15 +117,34 @@ func (c *vClient) Run() error {
 	}
 	c.reg.events = append(c.reg.events, vEvent{kind: "run", key: c.key})
 	c.reg.mu.Unlock()
-	<-c.stop
-	if c.reg.stopDelay > 0 {
-		time.Sleep(c.reg.stopDelay)
+	var err error
+	select {
+	case <-c.stop:
+		if c.reg.stopDelay > 0 {
+			time.Sleep(c.reg.stopDelay)
+		}
+	case <-c.quit:
+		// the client gives up on its own (lost its device, fatal error): Run returns without Stop
+		err = fmt.Errorf("client %s gave up", c.key)
 	}
 	c.reg.mu.Lock()
 	c.reg.running[c.key]--
 	c.reg.events = append(c.reg.events, vEvent{kind: "exit", key: c.key})
 	c.reg.mu.Unlock()
-	return nil
+	return err
+}
+
+// giveUp makes the running client of the given key return from Run on its own; false if there is none.
+func (r *registry) giveUp(key string) bool {
+	r.mu.Lock()
+	c := r.clients[key]
+	running := r.running[key] > 0
+	r.mu.Unlock()
+	if c == nil || !running {
+		return false
+	}
+	c.quitOnce.Do(func() { close(c.quit) })
+	return true
 }
 
 func (c *vClient) Stop(error) {
